@@ -5,6 +5,8 @@ import VlsModel.Gen.FnEnforceNew
 import VlsModel.Lemmas.FnGen
 import VlsModel.Lemmas.EnforcementFn
 import VlsModel.Lemmas.HandlerFn
+import VlsModel.Gen.FnEnforceTest
+import VlsModel.Gen.FnChannelSlotId
 /-
 C01 — the progression check in front of the holder counter, `Validator::set_next_holder_commit_num`
 (`vls-core/src/policy/validator.rs:256`, a default method of `trait Validator`, mechanism "set_next_holder_commit_num
@@ -650,5 +652,43 @@ example :
   decide
 
 end HandlerArms
+
+/-! ### The unguarded holder setter and the slot helpers (round 9)
+
+`EnforcementState::set_next_holder_commit_num_for_testing` (validator.rs:848) writes the holder counter without any of the
+guards tied above: for EVERY number, nothing else changes.  It is compiled only under `cfg(test)` / feature `test_utils`
+(the harness builds vls-core with `test_utils`; a production signer does not contain it) — the model has no request for it,
+and `C01_main` is about histories of the modelled requests.  `ChannelSlot::id`, `ChannelSlot::unwrap_stub`
+(channel.rs:343/361): the slot kind of the model (`SlotKind`) is the constructor of the generated `ChannelSlot`. -/
+section Unguarded
+open VlsModel.Gen.FnChannelSlotId
+
+theorem C01_fn_set_next_holder_commit_num_for_testing {P : Type} (e : Gen.FnEnforceTest.EnforcementState P) (num : Nat) :
+    (e.set_next_holder_commit_num_for_testing num).next_holder_commit_num = num
+    ∧ (e.set_next_holder_commit_num_for_testing num).next_counterparty_commit_num = e.next_counterparty_commit_num
+    ∧ (e.set_next_holder_commit_num_for_testing num).next_counterparty_revoke_num = e.next_counterparty_revoke_num
+    ∧ (e.set_next_holder_commit_num_for_testing num).current_counterparty_point = e.current_counterparty_point
+    ∧ (e.set_next_holder_commit_num_for_testing num).previous_counterparty_point = e.previous_counterparty_point := by
+  simp [Gen.FnEnforceTest.EnforcementState.set_next_holder_commit_num_for_testing]
+
+/-- the model's slot kind of a generated slot -/
+def slotOf {I : Type} : ChannelSlot I → SlotKind
+  | .Stub _ => .stub
+  | .Ready _ => .ready
+
+/-- `ChannelSlot::id`: the initial id of whichever variant is in the slot -/
+theorem C01_fn_channel_slot_id {I : Type} (s : ChannelSlot I) :
+    s.id = match s with | .Stub st => st.id0 | .Ready ch => ch.id0 := by
+  cases s <;> rfl
+
+/-- `ChannelSlot::unwrap_stub` returns exactly on a slot the model calls `stub`, and panics on a ready channel -/
+theorem C01_fn_channel_slot_unwrap_stub {I : Type} (s : ChannelSlot I) :
+    (slotOf s = .stub → ∃ st, s.unwrap_stub = .ok st ∧ s = .Stub st)
+    ∧ (slotOf s = .ready → s.unwrap_stub = .error .panic) := by
+  cases s with
+  | Stub st => exact ⟨fun _ => ⟨st, rfl, rfl⟩, fun h => by simp [slotOf] at h⟩
+  | Ready ch => exact ⟨fun h => by simp [slotOf] at h, fun _ => rfl⟩
+
+end Unguarded
 
 end VlsModel.Props.C01Fn
